@@ -98,6 +98,7 @@ def check(ctx: Ctx) -> None:
     ops = r2(ctx)
     r3(ctx, ops)
     r4(ctx)
+    r4_encoding(ctx)
     r5(ctx)
     r6(ctx)
 
@@ -373,6 +374,24 @@ def r4(ctx: Ctx) -> None:
                                                    '`category: ` without tags is rejected by the .rules loader, which makes the whole file unloadable', cat_lines[0] if cat_lines else f.node)
     else:
         ctx.ok('C14.R4', f, 'rows without category and tags are handled before emission', construct='domain:empty-category')
+
+
+def r4_encoding(ctx: Ctx) -> None:
+    """The generated file is written in the encoding it is read back in: every open(…, 'w' / 'a') of the migration names the loader's encoding
+    (a bare open() uses the locale's, and a merchant called Café then either fails to write or is read back as mojibake)."""
+    proj = ctx.proj
+    f = proj.func('cli._migrate_csv_to_rules')
+    n = 0
+    for c in ast.walk(f.node):
+        if isinstance(c, ast.Call) and isinstance(c.func, ast.Name) and c.func.id == 'open' and len(c.args) >= 2 and isinstance(c.args[1], ast.Constant) \
+                and isinstance(c.args[1].value, str) and ('w' in c.args[1].value or 'a' in c.args[1].value) and 'b' not in c.args[1].value:
+            n += 1
+            enc = [k.value for k in c.keywords if k.arg == 'encoding']
+            ok = bool(enc) and isinstance(enc[0], ast.Constant) and str(enc[0].value).lower().replace('_', '-') in ('utf-8', 'utf8')
+            ctx.check(ok, 'C14.R4', f, f'encoding:{src(c.args[0])[:24]}', f'{src(c)[:50]} names utf-8', f'{src(c)[:60]!r} does not name the encoding the loader reads with (utf-8): '
+                      f'non-ASCII merchant or category names fail to migrate, or load differently, on a machine whose default encoding is not UTF-8', c)
+    if n == 0:
+        ctx.unknown('C14.R4', f, 'no text-mode open(…, "w"/"a") found in the migration')
 
 
 def r5(ctx: Ctx) -> None:
